@@ -62,6 +62,26 @@ def job_expr(item):
             return S
         depth -= 1
 
+def _norm_tree(t):
+    """reference trees (names prefixed i/q, literals tagged) and canon() trees (ONE, ('const', n)) in one vocabulary"""
+    if isinstance(t, tuple):
+        if len(t) == 2 and t[0] == 'const': return t[1]
+        if t and t[0] == 'Literal': return ('Literal',)
+        return tuple(_norm_tree(x) for x in t)
+    return 1 if t == 'ONE' else t
+def tree_vs_reference(prog, expr, r):
+    """the evaluator oracle works on the tree the implementation's parser produced; that tree must be the one the reference pipeline (reference lexer, grammar,
+    reference precedence parser) assigns to the text -- otherwise a parser-level rewrite would be invisible here. Returns a description of the difference or None."""
+    from . import pubconfirm as PC, parsejob as PJ, c09 as C09
+    try: ref = PC.reference_compile(expr, C09.OPEN_EXTS)
+    except Exception as e: return None
+    if ref[0] == 'ext': return None
+    if ref[0] == 'err': return None if r.variant != 'Ok' else f'the reference pipeline rejects the text ({ref[2]}), compile accepts it'
+    if r.variant != 'Ok': return 'the reference pipeline accepts the text, compile rejects it'
+    try: got = _norm_tree(PJ.canon(prog, r.fields[0].v, {}))
+    except Unsupported: return None
+    want = _norm_tree(PC.strip_prefix_names(ref[1]))
+    return None if got == want else f'parse tree {str(got)[:200]} is not the reference tree {str(want)[:200]}'
 def job_expr_at(item, cap):
     expr, depth, A, deadline, origin = item
     prog = PROG; eng = Engine(prog); eng.deadline = deadline; S = Summary(); XP.init_decls(prog)
@@ -72,6 +92,9 @@ def job_expr_at(item, cap):
         S.inconclusive(f'parse {expr!r}: ' + XP.short_unsupported(str(u))); return S
     except Panic as p:
         S.cand('parse-panic', f'compile panics: {p}', {'expr': expr}, {'op': 'compile', 'expr': expr}, expected='no panic'); return S
+    ref = tree_vs_reference(prog, expr, r)
+    if ref is not None:
+        S.cand('parse-tree-differs', ref, {'expr': expr, 'origin': origin}, {'op': 'compile', 'expr': expr}, expected='the tree of the reference parser'); S['outcomes']['parse-differs'] += 1
     if r.variant != 'Ok':
         S['outcomes']['not-compiled'] += 1; return S
     ast = r.fields[0].v
@@ -203,6 +226,9 @@ def task(item):
     return job_ast(item[1:]) if item[0] == 'ast' else job_expr(item[1:])
 
 def confirm(c, nd, nr):
+    if c['key'].endswith('parse-tree-differs'):
+        from . import pubconfirm as PC, c09 as C09
+        return PC.confirm_text(c['witness']['expr'], nd, nr, open_exts=C09.OPEN_EXTS, templates=['{T}'])
     obs = {'dev': nd.request(c['request']), 'release': nr.request(c['request'])}
     if c['key'].endswith('panic'): return any(o.get('kind') in ('panic', 'abort', 'hang') for o in obs.values()), obs
     exp = c['expected']
